@@ -5,4 +5,4 @@ B=$1; n=$2; p=$3; c=${4:-$p}
 mkdir -p $B/verif/seeded/$n
 cp /verif/seeded/$n/patch.diff $B/verif/seeded/$n/patch.diff
 (cd $B/verif && python3 seedtest.py $n $B/verif/seeded/$n/patch.diff $p --checks $c 2>&1 | tail -4)
-cp $B/verif/seeded/$n/result.json /verif/seeded/$n/result.json 2>/dev/null
+cp $B/verif/seeded/$n/result.json /verif/seeded/$n/result.json 2>/dev/null || true
